@@ -1158,6 +1158,54 @@ func checkC17(w *World, r *Report) {
 		}
 		r.Check(okNC, "C17.R3", fname(a.wInit)+":dial-failed", "when no connection could be established the writer shuts down", site,
 			"an unreachable peer leaves a registered writer without connection: no RemoteUnreachableEvent, messages pile up in its inbox instead of dead-lettering")
+		// ... and that test sees a failed dial: a dial function that returns a pointer (tls.Dial: *tls.Conn) hands back a
+		// nil pointer with its error, and a nil pointer stored in the net.Conn variable is not a nil net.Conn. The
+		// conversion has to sit behind the error test of that very call.
+		{
+			var early []string
+			nDial := 0
+			for n, in := range ig.ins {
+				mi, ok := in.(*ssa.MakeInterface)
+				if !ok || mi.Type().String() != "net.Conn" {
+					continue
+				}
+				if _, isPtr := mi.X.Type().Underlying().(*types.Pointer); !isPtr {
+					continue
+				}
+				ex, ok := w.resolve(mi.X).(*ssa.Extract)
+				if !ok || ex.Index != 0 {
+					continue
+				}
+				call, ok := ex.Tuple.(*ssa.Call)
+				if !ok || !evDial().M(call) {
+					continue
+				}
+				nDial++
+				_, errNil := ig.CondEdges(func(v ssa.Value) (bool, bool) {
+					b, ok := v.(*ssa.BinOp)
+					if !ok || (b.Op != token.EQL && b.Op != token.NEQ) {
+						return false, false
+					}
+					x, y := b.X, b.Y
+					if k, isK := x.(*ssa.Const); isK && k.IsNil() {
+						x, y = y, x
+					}
+					if k, isK := y.(*ssa.Const); !isK || !k.IsNil() {
+						return false, false
+					}
+					if e2, isE := w.resolve(x).(*ssa.Extract); isE && e2.Tuple == ssa.Value(call) && e2.Index == 1 {
+						return b.Op == token.NEQ, true
+					}
+					return false, false
+				})
+				if len(errNil) == 0 || !ig.OnlyVia(errNil, n) {
+					early = append(early, w.pos(call.Pos())+" ("+mi.X.Type().String()+")")
+				}
+			}
+			r.Check(len(early) == 0, "C17.R3", fname(a.wInit)+":failed-dial-is-nil", "a dial result of pointer type becomes the net.Conn that is tested for nil only behind the error test of that dial", site,
+				"converted at "+strings.Join(early, ", ")+" before the error of the dial was looked at: after a failed dial the net.Conn holds a nil pointer, `== nil` is false, the writer goes on and dereferences it (the router actor crashes; no RemoteUnreachableEvent, no dead letters, the writer stays registered)")
+			_ = nDial
+		}
 		recvErr, _ := ig.CondEdges(func(v ssa.Value) (bool, bool) {
 			b, ok := v.(*ssa.BinOp)
 			if !ok || (b.Op != token.NEQ && b.Op != token.EQL) {
